@@ -75,9 +75,14 @@ thread_local! {
 
 pub fn install_panic_hook() {
     std::panic::set_hook(Box::new(|info| {
+        // keep the last three path components only: the log must not depend on $HOME
         let loc = info
             .location()
-            .map(|l| format!("{}:{}", l.file(), l.line()))
+            .map(|l| {
+                let parts: Vec<&str> = l.file().split('/').collect();
+                let tail = parts[parts.len().saturating_sub(3)..].join("/");
+                format!("{}:{}", tail, l.line())
+            })
             .unwrap_or_default();
         let msg = if let Some(s) = info.payload().downcast_ref::<&str>() {
             (*s).to_string()
